@@ -169,6 +169,24 @@ func init() {
 	Fix64TypeMinFractionalBig.Abs(Fix64TypeMinFractionalBig)
 }
 
+// ScaleFractional returns the fractional part of a fixed-point literal,
+// given as the integer value of its fractional digits and their count (scale),
+// as a fractional part of the target scale, i.e. fractional * 10^(targetScale - scale).
+// The scale must not be greater than the target scale.
+func ScaleFractional(fractional *big.Int, scale, targetScale uint) *big.Int {
+	if scale >= targetScale {
+		return fractional
+	}
+	scaleDiff := new(big.Int).SetUint64(uint64(targetScale - scale))
+	return new(big.Int).Mul(
+		fractional,
+		new(big.Int).Exp(big.NewInt(10), scaleDiff, nil),
+	)
+}
+
+// CheckRange returns true if the given fixed-point value is in the given range.
+// The fractional value must have the same scale as the minimum and maximum fractionals,
+// see ScaleFractional.
 func CheckRange(
 	negative bool,
 	unsignedIntegerValue, fractionalValue,
